@@ -1597,4 +1597,211 @@ end
 
 end mutualLay
 
+/-! ### Function level -/
+
+section fnLevel
+variable {g : Globals} {rg : RGlobals}
+
+theorem cnt_specParams : ∀ (ps : List (Name × ATy)) (s : SpecSt), countEff (specParams ps s).out = countEff s.out
+  | [], s => by unfold specParams; rfl
+  | (n, t) :: rest, s => by
+    unfold specParams
+    dsimp only
+    rw [cnt_specParams rest]
+    simp [SpecSt.declare, SpecSt.emit, countEff, DStmt.isEff]
+
+theorem lay_bodyStmts (hg : GlobRel g rg) (hn : GNames g) (resTy : Ty) : ∀ (l : List BodyStmt) (rc : Bool),
+    BodyStmt.anaOKL l = true → BodyStmt.f2L l = false → BodyStmt.f3L l = false → (l = [] → rc = false) →
+    ∀ s ss, DRel s ss → (bodyStmts g resTy l rc s).1.errors = s.errors →
+      CPSv none s (bodyStmts g resTy l rc s).1 (BodyStmt.lowerL l (effCount s.root.context)) ∧
+      ((bodyStmts g resTy l rc s).2 = true → endsRet (BodyStmt.lowerL l (effCount s.root.context)).1 = true)
+  | [], rc => by
+    intro _ _ _ hrc s ss hr _
+    have : rc = false := hrc rfl
+    subst this
+    unfold bodyStmts
+    rw [low_fb_nil]
+    exact ⟨CPSv.same rfl, fun h => by cases h⟩
+  | .letB bd :: tl, rc => by
+    intro hok hf2 hf3 _ s ss hr he
+    unfold BodyStmt.anaOKL at hok; unfold BodyStmt.f2L at hf2; unfold BodyStmt.f3L at hf3
+    unfold bodyStmts at he ⊢
+    dsimp only at he ⊢
+    obtain ⟨h1, _, _, _, _⟩ := cons_facts rc false false (esteps_letBinding g bd _).errors_ext (steps_bodyStmts g resTy tl rc _).errors_ext he
+    subst h1
+    rw [forbidden_fff] at he ⊢
+    rw [low_fb_let]
+    exact cpsl_cons (BodyStmt.lowerL tl) (esteps_letBinding g bd s).errors_ext (steps_bodyStmts g resTy tl false _).errors_ext he
+      (fun e => ⟨cpsv_of (cps_let hg hn _ bd s ss hr e), den_let hg hn bd s ss hr e⟩)
+      (fun d e => lay_bodyStmts hg hn resTy tl false hok hf2 hf3 (fun _ => rfl) _ _ d e)
+  | .bind bd :: tl, rc => by
+    intro hok hf2 hf3 _ s ss hr he
+    unfold BodyStmt.anaOKL at hok; unfold BodyStmt.f2L at hf2; unfold BodyStmt.f3L at hf3
+    unfold bodyStmts at he ⊢
+    dsimp only at he ⊢
+    obtain ⟨h1, _, _, _, _⟩ := cons_facts rc false false (esteps_binding g bd _).errors_ext (steps_bodyStmts g resTy tl rc _).errors_ext he
+    subst h1
+    rw [forbidden_fff] at he ⊢
+    rw [low_fb_bind]
+    exact cpsl_cons (BodyStmt.lowerL tl) (esteps_binding g bd s).errors_ext (steps_bodyStmts g resTy tl false _).errors_ext he
+      (fun e => ⟨cpsv_of (cps_bind hg hn _ bd s ss hr e), den_bind hg hn bd s ss hr e⟩)
+      (fun d e => lay_bodyStmts hg hn resTy tl false hok hf2 hf3 (fun _ => rfl) _ _ d e)
+  | .call c :: tl, rc => by
+    intro hok hf2 hf3 _ s ss hr he
+    unfold BodyStmt.anaOKL at hok; unfold BodyStmt.f2L at hf2; unfold BodyStmt.f3L at hf3
+    unfold bodyStmts at he ⊢
+    dsimp only at he ⊢
+    obtain ⟨h1, _, _, _, _⟩ := cons_facts rc false false (esteps_callStmt g c _).errors_ext (steps_bodyStmts g resTy tl rc _).errors_ext he
+    subst h1
+    rw [forbidden_fff] at he ⊢
+    rw [low_fb_call]
+    exact cpsl_cons (BodyStmt.lowerL tl) (esteps_callStmt g c s).errors_ext (steps_bodyStmts g resTy tl false _).errors_ext he
+      (fun e => ⟨cpsv_of (cps_callS hg hn _ c s ss hr e), den_callS hg hn c s ss hr e⟩)
+      (fun d e => lay_bodyStmts hg hn resTy tl false hok hf2 hf3 (fun _ => rfl) _ _ d e)
+  | .ifS i :: tl, rc => by
+    intro hok hf2 hf3 _ s ss hr he
+    unfold BodyStmt.anaOKL at hok; unfold BodyStmt.f2L at hf2; unfold BodyStmt.f3L at hf3
+    simp only [Bool.and_eq_true] at hok
+    simp only [Bool.or_eq_false_iff] at hf2 hf3
+    unfold bodyStmts at he ⊢
+    dsimp only at he ⊢
+    obtain ⟨h1, _, _, _, _⟩ := cons_facts rc false false (steps_ifCondition g i none none _).errors_ext (steps_bodyStmts g resTy tl rc _).errors_ext he
+    subst h1
+    rw [forbidden_fff] at he ⊢
+    rw [low_fb_if]
+    exact cpsl_cons (BodyStmt.lowerL tl) (steps_ifCondition g i none none s).errors_ext (steps_bodyStmts g resTy tl false _).errors_ext he
+      (fun e => ⟨(lay_ifCondition hg hn i none none true hok.1 (fun _ => rfl) hf2.1 hf3.1 s ss hr e).1 rfl,
+        (den_ifCondition hg hn i none none hok.1 s ss hr e).1⟩)
+      (fun d e => lay_bodyStmts hg hn resTy tl false hok.2 hf2.2 hf3.2 (fun _ => rfl) _ _ d e)
+  | .loop lbody :: tl, rc => by
+    intro hok hf2 hf3 _ s ss hr he
+    unfold BodyStmt.anaOKL at hok; unfold BodyStmt.f2L at hf2; unfold BodyStmt.f3L at hf3
+    simp only [Bool.and_eq_true] at hok
+    simp only [Bool.or_eq_false_iff] at hf2 hf3
+    unfold bodyStmts at he ⊢
+    dsimp only at he ⊢
+    obtain ⟨h1, _, _, _, _⟩ := cons_facts rc false false (steps_loopWrap _ (steps_loopBody g lbody) _).errors_ext (steps_bodyStmts g resTy tl rc _).errors_ext he
+    subst h1
+    rw [forbidden_fff] at he ⊢
+    rw [low_fb_loop]
+    exact cpsl_cons (BodyStmt.lowerL tl) (steps_loopWrap _ (steps_loopBody g lbody) s).errors_ext (steps_bodyStmts g resTy tl false _).errors_ext he
+      (fun e => ⟨lay_loopWrap (loopBody g lbody) (specLoopBody false rg lbody) (LoopStmt.lowerL lbody) (LoopStmt.hasRetL lbody)
+          (LoopStmt.nestedBrkL lbody) none (steps_loopBody g lbody)
+          (fun lb le s ss => den_loopBody hg hn lbody lb le false false false hok.1 s ss)
+          (fun lb le b' s ss d e hb' => lay_loopBody hg hn lbody lb le b' false false false hok.1 hb' hf2.1 hf3.1.2 (fun _ => rfl) s ss d e)
+          (fun lb le s h => by rcases ret_loopBody g lbody lb le false false false s h with h | h; cases h; exact h)
+          hf3.1.1 s ss hr e,
+        (den_loopWrap _ (specLoopBody false rg lbody) (steps_loopBody g lbody)
+          (fun lb le s ss => den_loopBody hg hn lbody lb le false false false hok.1 s ss) s ss hr e).1⟩)
+      (fun d e => lay_bodyStmts hg hn resTy tl false hok.2 hf2.2 hf3.2 (fun _ => rfl) _ _ d e)
+  | .expr e :: tl, rc => by
+    intro hok hf2 hf3 _ s ss hr he
+    unfold BodyStmt.anaOKL at hok; unfold BodyStmt.f2L at hf2; unfold BodyStmt.f3L at hf3
+    unfold bodyStmts at he ⊢
+    dsimp only at he ⊢
+    have x1 := (steps_fnReturn g resTy e rc (forbidden rc false false s)).errors_ext
+    have x2 := (steps_bodyStmts g resTy tl (fnReturn g resTy e rc (forbidden rc false false s)).2 (fnReturn g resTy e rc (forbidden rc false false s)).1).errors_ext
+    obtain ⟨h1, _, _, _, _⟩ := cons_facts rc false false x1 x2 he
+    subst h1
+    rw [forbidden_fff] at he x1 x2 ⊢
+    obtain ⟨e1, e2⟩ := chain2 x1 x2 he
+    obtain ⟨jr, jf⟩ := cps_fnRet hg hn none resTy e s ss hr e1
+    have jd := den_fnReturn hg hn resTy e false s ss hr e1
+    rw [jf] at he e2 ⊢
+    rw [low_fb_expr]
+    cases tl with
+    | nil =>
+      have hnil : ∀ (s' : St), bodyStmts g resTy [] true s' = (s', true) := by intro s'; unfold bodyStmts; rfl
+      rw [hnil, low_fb_nil]
+      dsimp only
+      refine ⟨?_, fun _ => ?_⟩
+      · simpa using jr.cps
+      · simpa using endsRet_lowerRet e (effCount s.root.context)
+    | cons x tl' =>
+      have ih := lay_bodyStmts hg hn resTy (x :: tl') true hok hf2 hf3 (fun h => by cases h) _ _ jd e2
+      refine ⟨jr.cps.trans (by have := ih.1; rw [jr.cps.eff] at this; exact this), fun hr' => endsRet_append _ _ ?_⟩
+      have := ih.2 hr'; rw [jr.cps.eff] at this; exact this
+  | .ret e :: tl, rc => by
+    intro hok hf2 hf3 _ s ss hr he
+    unfold BodyStmt.anaOKL at hok; unfold BodyStmt.f2L at hf2; unfold BodyStmt.f3L at hf3
+    unfold bodyStmts at he ⊢
+    dsimp only at he ⊢
+    have x1 := (steps_fnReturn g resTy e rc (forbidden rc false false s)).errors_ext
+    have x2 := (steps_bodyStmts g resTy tl (fnReturn g resTy e rc (forbidden rc false false s)).2 (fnReturn g resTy e rc (forbidden rc false false s)).1).errors_ext
+    obtain ⟨h1, _, _, _, _⟩ := cons_facts rc false false x1 x2 he
+    subst h1
+    rw [forbidden_fff] at he x1 x2 ⊢
+    obtain ⟨e1, e2⟩ := chain2 x1 x2 he
+    obtain ⟨jr, jf⟩ := cps_fnRet hg hn none resTy e s ss hr e1
+    have jd := den_fnReturn hg hn resTy e false s ss hr e1
+    rw [jf] at he e2 ⊢
+    rw [low_fb_ret]
+    cases tl with
+    | nil =>
+      have hnil : ∀ (s' : St), bodyStmts g resTy [] true s' = (s', true) := by intro s'; unfold bodyStmts; rfl
+      rw [hnil, low_fb_nil]
+      dsimp only
+      refine ⟨?_, fun _ => ?_⟩
+      · simpa using jr.cps
+      · simpa using endsRet_lowerRet e (effCount s.root.context)
+    | cons x tl' =>
+      have ih := lay_bodyStmts hg hn resTy (x :: tl') true hok hf2 hf3 (fun h => by cases h) _ _ jd e2
+      refine ⟨jr.cps.trans (by have := ih.1; rw [jr.cps.eff] at this; exact this), fun hr' => endsRet_append _ _ ?_⟩
+      have := ih.2 hr'; rw [jr.cps.eff] at this; exact this
+
+/-- **T4, analyzer half** — the root stack of a function analysed without error, outside the
+findings F2 and F3, is a layout of the function's structured flow, which ends in a return -/
+theorem T4_function (hg : GlobRel g rg) (hn : GNames g) (f : FnDecl) (hok : BodyStmt.anaOKL f.body = true)
+    (hf2 : f.hasF2 = false) (hf3 : f.hasF3 = false) (he : (functionBody g f).errors = []) :
+    Lay none 0 f.flow (functionBody g f).root.context .fall ∧ endsRet f.flow = true := by
+  unfold functionBody at he ⊢
+  unfold FnDecl.flow
+  unfold FnDecl.hasF2 at hf2
+  unfold FnDecl.hasF3 at hf3
+  dsimp only at he ⊢
+  have x1 := (esteps_initParams f.params St.init paramInv_init).errors_ext
+  have h1 := den_initParams f.params St.init SpecSt.init paramInv_init drel_init
+  have st1 := esteps_initParams f.params St.init paramInv_init
+  generalize initParams f.params St.init = s1 at he x1 h1 st1 ⊢
+  have x2 := (steps_bodyStmts g f.result.toTy f.body false s1).errors_ext
+  have l2 := lay_bodyStmts hg hn f.result.toTy f.body false hok hf2 hf3 (fun _ => rfl) s1 (specParams f.params SpecSt.init)
+  generalize bodyStmts g f.result.toTy f.body false s1 = q at he x2 l2 ⊢
+  obtain ⟨s2, rc⟩ := q
+  dsimp only at he x2 l2 ⊢
+  have x3 : ∃ Δ, (if rc = true then s2 else s2.addErr .returnNotFound [] 1 0).errors = s2.errors ++ Δ := by
+    cases rc
+    · exact ⟨_, rfl⟩
+    · exact ⟨[], by simp⟩
+  have hi : St.init.errors = [] := rfl
+  rw [← hi] at he
+  obtain ⟨e1, e2, e3⟩ := chain3 x1 x2 x3 he
+  have d1 := h1 e1
+  obtain ⟨c2, hend⟩ := l2 d1 e2
+  have hrc : rc = true := by
+    cases rc
+    · exfalso
+      have := congrArg List.length e3
+      simp [St.addErr] at this
+    · rfl
+  subst hrc
+  -- the parameters: straight code without effects
+  have hn1 : effCount s1.root.context = 0 := by
+    rw [eff_of_drel d1, cnt_specParams]; rfl
+  obtain ⟨seg1, cs1, hs1⟩ := esteps_seg st1
+  have hinit : St.init.root.context = [] := rfl
+  rw [hinit, List.nil_append] at cs1
+  rw [hn1] at c2 hend
+  obtain ⟨seg2, cs2, n2, lay2⟩ := c2
+  rw [hn1] at lay2
+  simp only [if_true]
+  refine ⟨?_, hend rfl⟩
+  have hl := lay2 [] [] .fall (by simpa using Lay.nil none (0 + effCount seg2))
+  have hs1e : effCount seg1 = 0 := by rw [← cs1]; exact hn1
+  have := lay_seg (K := none) seg1 0 hs1 (by rw [hs1e]; simpa using hl)
+  rw [hs1e] at this
+  rw [cs2, cs1]
+  simpa [evs] using this
+
+end fnLevel
+
 end SemVerif
